@@ -688,6 +688,12 @@ def check(pid, tier):
             path = write_replay(pid, seed, "unproved", dict(
                 kind="no-failing-input-found", no_longer_checks=[dict(kind=k, items=d[:10]) for k, d in broken],
                 closure_functions_changed=closure_diff(pid),
+                # semantic obligations about the code as it is now (translated by extractor/translate.go) that still check:
+                # when only pins (source_*/skeleton_*/closure_unchanged) are listed above and these hold, the translated
+                # fragments still do what the models say - the change is outside them or preserves their behaviour
+                translated_obligations_still_checking=sorted(t for t in proofs.get("obligations", [])
+                                                             if ".translated_" in t and t not in proofs["failed"]),
+                translated_obligations_broken=sorted(t for t in proofs["failed"] if ".translated_" in t),
                 first_disagreement=first_diff, lean_output=proofs.get("detail", "")[-3000:],
                 searched="failing-input search over derived seeds with 4x budget per seed found no Spec violation"))
             violations.append((path, " no-failing-input-found"))
